@@ -99,6 +99,72 @@ fn language(h: &Hir) -> Option<Vec<String>> {
     }
 }
 
+/// Language of the pattern with every NAMED group replaced by the token `<name>`: the literal skeleton (separators,
+/// their optionality and alternatives) between the fields. None if infinite or too large.
+fn skeleton(h: &Hir) -> Option<Vec<String>> {
+    match h.kind() {
+        HirKind::Capture(c) if c.name.is_some() => Some(vec![format!("<{}>", c.name.as_ref().unwrap())]),
+        HirKind::Capture(c) => skeleton(&c.sub),
+        HirKind::Repetition(r) => {
+            let max = r.max?;
+            let sub = skeleton(&r.sub)?;
+            let mut total: Vec<String> = Vec::new();
+            for n in r.min..=max {
+                let mut cur = vec![String::new()];
+                for _ in 0..n {
+                    let mut next = Vec::new();
+                    for p in &cur {
+                        for s in &sub {
+                            next.push(format!("{}{}", p, s));
+                            if next.len() > LIMIT {
+                                return None;
+                            }
+                        }
+                    }
+                    cur = next;
+                }
+                total.extend(cur);
+                if total.len() > LIMIT {
+                    return None;
+                }
+            }
+            total.sort();
+            total.dedup();
+            Some(total)
+        }
+        HirKind::Concat(v) => {
+            let mut cur = vec![String::new()];
+            for e in v {
+                let l = skeleton(e)?;
+                let mut next = Vec::new();
+                for p in &cur {
+                    for s in &l {
+                        next.push(format!("{}{}", p, s));
+                        if next.len() > LIMIT {
+                            return None;
+                        }
+                    }
+                }
+                cur = next;
+            }
+            Some(cur)
+        }
+        HirKind::Alternation(v) => {
+            let mut out = Vec::new();
+            for e in v {
+                out.extend(skeleton(e)?);
+                if out.len() > LIMIT {
+                    return None;
+                }
+            }
+            out.sort();
+            out.dedup();
+            Some(out)
+        }
+        _ => language(h),
+    }
+}
+
 fn ascii_only(h: &Hir) -> bool {
     match h.kind() {
         HirKind::Empty | HirKind::Look(_) => true,
@@ -124,6 +190,7 @@ struct G {
     min_len: Option<usize>,
     max_len: Option<usize>,
     desc: String,
+    rep: Option<(u32, Option<u32>)>,
 }
 
 fn walk(h: &Hir, uncond: bool, out: &mut Vec<G>) {
@@ -139,6 +206,10 @@ fn walk(h: &Hir, uncond: bool, out: &mut Vec<G>) {
                 min_len: p.minimum_len(),
                 max_len: p.maximum_len(),
                 desc: class_desc(&c.sub),
+                rep: match c.sub.kind() {
+                    HirKind::Repetition(r) if matches!(r.sub.kind(), HirKind::Class(_)) => Some((r.min, r.max)),
+                    _ => None,
+                },
             });
             walk(&c.sub, uncond, out);
         }
@@ -175,6 +246,7 @@ fn main() {
                 o.push(("min_len", p.minimum_len().map(|x| J::n(x as i128)).unwrap_or(J::Null)));
                 o.push(("max_len", p.maximum_len().map(|x| J::n(x as i128)).unwrap_or(J::Null)));
                 o.push(("ascii_only", J::Bool(ascii_only(&h))));
+                o.push(("skeleton", skeleton(&h).map(|l| J::Arr(l.into_iter().map(J::s).collect())).unwrap_or(J::Null)));
                 let mut gs = Vec::new();
                 walk(&h, true, &mut gs);
                 o.push((
@@ -192,6 +264,8 @@ fn main() {
                                     ("min_len", g.min_len.map(|x| J::n(x as i128)).unwrap_or(J::Null)),
                                     ("max_len", g.max_len.map(|x| J::n(x as i128)).unwrap_or(J::Null)),
                                     ("desc", J::s(g.desc)),
+                                    ("rep_min", g.rep.map(|r| J::n(r.0 as i128)).unwrap_or(J::Null)),
+                                    ("rep_max", g.rep.and_then(|r| r.1).map(|x| J::n(x as i128)).unwrap_or(J::Null)),
                                 ])
                             })
                             .collect(),
